@@ -3,7 +3,7 @@ import UF.Proofs.RequestLabels
   Helper lemmas for C17 (`c17_request_eq_ref`): on the URL grammar the reference reading of a URL
   and the model agree.
 -/
-namespace UF
+namespace UF.H
 open Bytes
 
 theorem indexOf_go_scheme (pre rest : Bytes) (k : Nat) (h : pre.all (fun c => c != ch ':') = true) :
@@ -143,4 +143,4 @@ theorem empty_side (ext : Ext) :
     omega
   simp [this]
 
-end UF
+end UF.H
